@@ -13,6 +13,10 @@ iteration is allowed to call "converged" and how solid-solution fractions are fo
                 mole fraction": calc_ss_fractions forms the total and the fractions over the same component list from the same
                 clamped amount (negative -> a positive minimum), stores moles/total and log10 of the same quotient, and
                 dispatches to ss_ideal exactly when both Guggenheim parameters are zero; ss_ideal sets log10 lambda = 0
+  C03.quick     "SI equal to the requested target": prep() takes a fast path (quick_setup) when the model structure is unchanged; the
+                fast path must refresh, for every pure-phase unknown, each field that the full set-up (setup_pure_phases) copies
+                from the assemblage component's getters (amount, target SI, delta, dissolve_only, component pointer) - otherwise
+                the second of two consecutive reaction calculations keeps the previous assemblage's request
 The unknown-type codes (macros) are recovered from the set-up functions (setup_exchange, setup_surface, setup_pure_phases,
 setup_ss_assemblage).
 Not decided: SI = target / phase absent with SI <= target, dissolve_only / precipitate_only / force_equality (inequality solver
@@ -150,6 +154,7 @@ def run(P, R, tier):
         else:
             R.violation("C03.balance", name + ":residual", "the %s residual `%s` is not x.f * ln 10" % (name, T.text(first[4])[:80] if first else "?"), line=first[1] if first else b[1], **where)
 
+    quick_rule(P, R, pp[0])
     # ------------------------------------------------------------------ solid-solution fractions
     R.rule("C03.ssfrac", "solid-solution fractions: total and fractions from the same clamped amounts over the same list; log of the same quotient; ideal <=> both parameters zero; lambda = 1", minimum=6)
     g = P.one("Phreeqc::calc_ss_fractions")
@@ -225,3 +230,46 @@ def run(P, R, tier):
         R.ok("C03.ssfrac", "ideal-lambda", "log10 lambda = 0: activity = mole fraction")
     else:
         R.violation("C03.ssfrac", "ideal-lambda", "ss_ideal does not set log10 lambda = 0 for every component", file=idl["file"], line=idl["line"], function=idl["q"])
+
+
+def quick_rule(P, R, pp_code):
+    R.rule("C03.quick", "quick_setup refreshes every pure-phase unknown field that setup_pure_phases copies from the component", minimum=4)
+    full = P.one("Phreeqc::setup_pure_phases")
+    fast = P.one("Phreeqc::quick_setup")
+
+    def comp_fields(body):
+        out = {}
+        for x in T.walk(body):
+            if x[0] == "Bin" and x[2] == "=":
+                t = T.strip_casts(x[3])
+                if t[0] == "Member" and t[2].startswith("unknown::"):
+                    getters = [T.callee_name(c) for c in T.calls(x[4]) if T.callee_name(c).startswith("Get_") and T.is_node(c[3]) and "comp_ptr" in T.text(c[3])]
+                    direct = T.text(x[4]).strip() == "comp_ptr"
+                    if getters or direct:
+                        out[t[2].split("::")[-1]] = (getters[0] if getters else "comp_ptr", x[1])
+        return out
+    # the PP block of quick_setup
+    blk = None
+    for x in T.walk(fast["body"]):
+        if x[0] == "If":
+            c = T.strip_casts(x[2])
+            if c[0] == "Bin" and c[2] == "==" and T.strip_casts(c[3])[0] == "Member" and T.strip_casts(c[3])[2] == "unknown::type" and T.lit_value(c[4]) == pp_code:
+                blk = x[3]
+    if blk is None:
+        R.anchor_missing("C03.quick", "quick_setup: pure-phase refresh block not found")
+        return
+    want = comp_fields(full["body"])
+    got = comp_fields(blk)
+    if len(want) < 4:
+        R.anchor_missing("C03.quick", "setup_pure_phases copies only %d fields from the component" % len(want))
+        return
+    for fld, (getter, line) in sorted(want.items()):
+        if fld in ("pp_assemblage_comp_name",) or getter == "Get_name":
+            continue          # identity of the phase: part of the model structure that check_same_model compares
+        if fld in got and got[fld][0] == getter:
+            R.ok("C03.quick", fld, "refreshed from %s" % getter)
+        elif fld in got:
+            R.violation("C03.quick", fld, "quick_setup refreshes unknown::%s from %s, setup_pure_phases from %s" % (fld, got[fld][0], getter), file=fast["file"], line=got[fld][1], function=fast["q"])
+        else:
+            R.violation("C03.quick", fld, "setup_pure_phases copies unknown::%s from the component (%s) but the fast path quick_setup does not refresh it: the next reaction calculation on "
+                        "an unchanged model structure keeps the previous assemblage's value" % (fld, getter), file=fast["file"], line=blk[1], function=fast["q"])
